@@ -14,10 +14,13 @@
    of what is kept agrees with the engine's stash — invariant KA).  Clause 407 (while recovering, an early sequence-gated
    message that passes the header checks is kept, nothing requested, expected number unchanged) never fails on a trace with a
    non-negative ResendRequestChunkSize whose sequence-gated messages carry no GapFillFlag other than N (KeptProofs.v,
-   invariant CE; each proviso is needed: three `_refuted` examples). *)
+   invariant CE; each proviso is needed: three `_refuted` examples).  Clause 408 (while the recovery goes on without a store
+   reset, every kept message above the expected number stays kept) never fails on ANY model trace (KeptStayProofs.v); with
+   `<=` in place of `<` (the key equal to the new expected number demanded too) the clause is refuted: a kept gap fill that
+   fills nothing is taken out and processed when it is next, and leaves the expected number where it is. *)
 From Coq Require Import ZArith List Bool.
 From QF Require Import Base.Bytes Session.Types Session.Model Session.Spec Session.LocalProofs Session.C01Proofs Session.FrameProofs Session.TraceProofs Session.RecoveryProofs Session.ReactionProofs Session.TgProofs Session.ResendInvProofs
-  Session.NoReqProofs Session.ChunkProofs Session.TjProofs Session.KeptProofs.
+  Session.NoReqProofs Session.ChunkProofs Session.TjProofs Session.KeptProofs Session.StashTypeProofs Session.KeptStayProofs.
 Import ListNotations.
 Open Scope Z_scope.
 
@@ -240,3 +243,36 @@ Proof. exact c04_407_gap_flag_on_application_message_refuted. Qed.
 Theorem c04_early_message_negative_chunk_size_refuted :
   exists c es, Forall c04_no_gap_flag es /\ c04_check c (combine es (map obs_of (run_trace es (init_sess c)))) = [(3%nat, 407)].
 Proof. exact c04_407_negative_chunk_size_refuted. Qed.
+
+(* ---- clause 408: kept messages stay kept while the recovery goes on ---- *)
+(* MODEL LEVEL.  From every state satisfying the recovery invariant RI (every reachable state: c04_recovery_invariant
+   theorems above), whatever the event: if the session is logged on and recovering after the step and the step logged no
+   store reset, every message kept before the step whose number is above the expected number after the step is still kept.
+   (Entries leave the stash only by being taken out when they are next in sequence; the expected number never goes back
+   without a store reset.) *)
+Theorem c04_kept_messages_above_expected_stay_kept_step : forall s e, RI s ->
+  is_logged_on (s_st (step s e)) = true -> recovering (s_st (step s e)) -> ~ In CbStoreReset (s_cbs (step s e)) ->
+  forall k, In k (keys (stash_of_st (s_st s))) -> s_tgt (step s e) < k -> In k (keys (stash_of_st (s_st (step s e)))).
+Proof. exact step_keeps_kept_messages_above. Qed.
+
+(* TRACE LEVEL.  For every configuration and every event list, clause 408 of c04_check never fails on the model's trace:
+   asking for the next chunk, a gap fill, a duplicate, a rejected message, a buffered frame or a timer never loses a kept
+   message whose number has not been reached. *)
+Theorem c04_kept_messages_stay_kept_on_any_trace : forall c es,
+  free_of [408] (c04_check c (combine es (map obs_of (run_trace es (init_sess c))))) = true.
+Proof. exact c04_kept_messages_stay_kept. Qed.
+
+(* The clause with `ob_tgt o <=? k` (c04_408_le_check, KeptStayProofs.v: the key equal to the new expected number is demanded
+   too) holds on every trace in which every gap-fill SequenceReset that arrives announces a NewSeqNo above its own number ... *)
+Theorem c04_kept_messages_stay_kept_with_le_partial : forall c es,
+  Forall c04_gap_fills_advance es ->
+  c04_408_le_check c (combine es (map obs_of (run_trace es (init_sess c)))) = [].
+Proof. exact KeptStayProofs.c04_kept_messages_stay_kept_with_le_partial. Qed.
+
+(* ... and is REFUTED without the proviso: Logon; application message 10 (gap 2..9, 10 kept); gap fill 3 -> 3 kept under 3;
+   Heartbeat 2: the expected number becomes 3, the kept gap fill is taken out and processed, fills nothing; the session
+   still expects 3 and keeps nothing under 3.  The clause of c04_check (strict) reports nothing on this trace. *)
+Example c04_kept_messages_stay_kept_with_le_refuted :
+  exists c es, c04_408_le_check c (combine es (map obs_of (run_trace es (init_sess c)))) = [(4%nat, 408)]
+               /\ c04_check c (combine es (map obs_of (run_trace es (init_sess c)))) = [].
+Proof. exact KeptStayProofs.c04_kept_messages_stay_kept_with_le_refuted. Qed.
